@@ -1,5 +1,6 @@
 import SamVerif.Model.EnumLayout
 import SamVerif.Model.TailRec
+import SamVerif.Model.CpeSem
 import Driver.Util
 /-! Line-protocol driver for property C01 (model side): protocols `layout`, `tailrec`, `cpe`.
 Each line carries, after `##`, the model-side description of the same input that the harness
@@ -220,6 +221,76 @@ def cpeLine (rest : String) : String :=
     | none => "bad-model-line"
   | _ => "bad-model-line"
 
+/-! ### cpesem -/
+open TailRec CpeSem in
+partial def cbody : P CBody := do
+  let t ← tok
+  if t == "R" then do let e ← expr; pure (.ret e)
+  else if t == "I" then do let c ← expr; let a ← cbody; let b ← cbody; pure (.ite c a b)
+  else if t == "P" then do let n ← num; let es ← rep n expr; let k ← cbody; pure (.print es k)
+  else if t == "C" then do
+    let x ← tok
+    let n ← num
+    let as ← rep n expr
+    let k ← cbody
+    match nameOf x with
+    | some x => pure (.call x as k)
+    | none => failure
+  else if t == "B" then do
+    let x ← tok
+    let o ← tok
+    let e1 ← expr
+    let e2 ← expr
+    let k ← cbody
+    match nameOf x, opOf o with
+    | some x, some o => pure (.bin x o e1 e2 k)
+    | _, _ => failure
+  else failure
+
+def showRes (rs : List (Option CpeSem.Res)) : String :=
+  if rs.any Option.isNone then "none" else
+  let lines := rs.flatMap fun r => match r with
+    | some (ls, v) => ls.map (fun l => "_".intercalate (l.map toString)) ++ [toString v]
+    | none => []
+  (if lines.isEmpty then "-" else ",".intercalate lines) ++ "|ret:0"
+
+open TailRec CpeSem in
+/-- Applies the model's rewrite for every parameter the decision removes (highest index first). -/
+def transform (states : List PState) (params : List Nat) (body : CBody) (calls : List (List Int)) :
+    List Nat × CBody × List (List Int) :=
+  (List.range states.length).reverse.foldl (fun (acc : List Nat × CBody × List (List Int)) i =>
+    let (ps, b, cs) := acc
+    match states[i]?, ps[i]? with
+    | some PState.unused, some _ => (ps.eraseIdx i, dropArg i b, cs.map (·.eraseIdx i))
+    | some (PState.c32 n), some p => (ps.eraseIdx i, dropArg i (substVar p n b), cs.map (·.eraseIdx i))
+    | _, _ => acc) (params, body, calls)
+
+open TailRec CpeSem in
+def cpesemLine (rest : String) : String :=
+  match rest.splitOn "##" with
+  | [_, m] =>
+    match (do
+        let n ← num
+        let k ← num
+        let calls ← rep k (rep n expr)
+        let b ← cbody
+        pure (n, calls, b) : P (Nat × List (List Expr) × CBody)).run (words m) with
+    | some ((n, calls, b), _) =>
+      let params := List.range n
+      let callVals : List (List Int) := calls.map fun c => c.map (Expr.eval (fun _ => 0))
+      let f0 : Fn := { name := 0, params := [],
+                       atoms := calls.map fun c => Atom.call 1 (c.map exprArg) }
+      let f1 : Fn := { name := 1, params := params, atoms := atomsOf 1 b }
+      let prog := [f0, f1]
+      let states := (List.range n).map fun i => paramState prog f1 i i
+      let (ps', b', calls') := transform states params b callVals
+      let fuel := 200
+      let before := callVals.map fun v => run Opt.evalTarget params b fuel v
+      let after := calls'.map fun v => run Opt.evalTarget ps' b' fuel v
+      "ok " ++ ",".intercalate (states.map showP) ++ " " ++ showRes before ++ " " ++ showRes after
+    | none => "bad-model-line"
+  | _ => "bad-model-line"
+
 def step (_ : Unit) (line : String) : Unit × String :=
   let line := line.trimAscii.toString
   let (k, rest) := match line.splitOn " " with
@@ -228,6 +299,7 @@ def step (_ : Unit) (line : String) : Unit × String :=
   ((), if k == "layout" then layoutLine rest
        else if k == "tailrec" then tailrecLine rest
        else if k == "cpe" then cpeLine rest
+       else if k == "cpesem" then cpesemLine rest
        else "bad-line")
 
 end Driver.C01
